@@ -8,7 +8,10 @@ set -u
 export GOFLAGS=-mod=mod GOPROXY=off GOSUMDB=off GOTOOLCHAIN=local
 PATCH="$(readlink -f "$1")"; shift
 S=$(mktemp -d /tmp/tryp-XXXXXX)
-trap 'rm -rf "$S"' EXIT
+trap 'chmod -R u+w "$S" 2>/dev/null; rm -rf "$S"' EXIT
+# a private build cache: every run compiles a copy of /repo and of the framework at a new path, which would
+# otherwise add gigabytes to the shared cache (the disk guard then empties it under everybody's feet)
+export GOCACHE="$S/gocache"
 mkdir "$S/repo" && (cd /repo && git archive HEAD | tar -x -C "$S/repo")
 ( cd "$S/repo" && git init -q . && { git apply --whitespace=nowarn "$PATCH" 2>/dev/null || patch -p1 -s -F3 --no-backup-if-mismatch < "$PATCH"; } ) || { echo "PATCH does not apply"; exit 2; }
 ( cd "$S/repo" && go build ./... ) || { echo "PATCHED tree does not build"; exit 2; }
